@@ -4,8 +4,10 @@ package main
 
 import (
 	"go/ast"
+	"go/constant"
 	"go/token"
 	"go/types"
+	"sort"
 	"strings"
 
 	"golang.org/x/tools/go/packages"
@@ -41,6 +43,8 @@ func runC05(c *Ctx) {
 	c.Rule("CAN-REPORT", "an annotation call is reachable from every registered lint handler", 40)
 	c.Rule("OPTION-PLUMBING", "lint options flow field-to-field from LintConfig to the option readers used by the handlers", 18)
 	c.Rule("FILES-COMPLETE", "every input file is converted for the rule handlers whatever the parallelism (jobs cover all chunks, shared mutex, sorted after the barrier)", 1)
+
+	c05KeyInjective(c)
 
 	t := extractCheckTables(p)
 	for _, e := range t.Errors {
@@ -423,4 +427,109 @@ func c05Options(c *Ctx) {
 		}
 		c.Ob(rule, "bufcheckopt.Get"+fld+"/consulted", getter.Decl.Pos(), callers > 0, true, "Get%s is consulted by %d handler site(s)", fld, callers)
 	}
+}
+
+
+// c05KeyInjective (KEY-INJECTIVE, added after seeded change C05-a): locations are looked up through a string key
+// built from the source path ([]int32). The key is injective only if every byte of every element is written: for an
+// element variable of an integer type W bits wide the shifts applied before the byte() truncation must be exactly
+// {0, 8, …, W-8} and the buffer advances W/8 bytes per element. With fewer bytes two different paths (index 1 and
+// index 65537) share a key and a lint annotation is attached to, or looked up at, the wrong declaration. Widths
+// come from go/types, not from the text.
+func c05KeyInjective(c *Ctx) {
+	const rule = "KEY-INJECTIVE"
+	c.Rule(rule, "string keys built from integer slices keep every byte of every element", 1)
+	p := c.P
+	pk := p.Pkg("private/bufpkg/bufprotosource")
+	if pk == nil {
+		c.Fail(rule, "anchor", token.NoPos, "bufprotosource not found")
+		return
+	}
+	info := pk.TypesInfo
+	n := 0
+	for _, fr := range p.FuncsOf(pk) {
+		if fr.Decl.Body == nil {
+			continue
+		}
+		ast.Inspect(fr.Decl.Body, func(x ast.Node) bool {
+			rs, ok := x.(*ast.RangeStmt)
+			if !ok || rs.Value == nil {
+				return true
+			}
+			ev, _ := identObj(info, rs.Value).(*types.Var)
+			if ev == nil {
+				return true
+			}
+			bt, ok := ev.Type().Underlying().(*types.Basic)
+			if !ok || bt.Info()&types.IsInteger == 0 {
+				return true
+			}
+			width := map[types.BasicKind]int{types.Int8: 8, types.Uint8: 8, types.Int16: 16, types.Uint16: 16, types.Int32: 32, types.Uint32: 32, types.Int64: 64, types.Uint64: 64, types.Int: 64, types.Uint: 64}[bt.Kind()]
+			if width <= 8 {
+				return true
+			}
+			// byte(elem) / byte(elem >> k) stored into a []byte
+			shifts := map[int64]bool{}
+			stores := 0
+			ast.Inspect(rs.Body, func(m ast.Node) bool {
+				as, ok := m.(*ast.AssignStmt)
+				if !ok || len(as.Lhs) != 1 || len(as.Rhs) != 1 {
+					return true
+				}
+				if _, isIdx := as.Lhs[0].(*ast.IndexExpr); !isIdx {
+					return true
+				}
+				call, ok := ast.Unparen(as.Rhs[0]).(*ast.CallExpr)
+				if !ok || len(call.Args) != 1 {
+					return true
+				}
+				if tv, ok := info.Types[call.Fun]; !ok || !tv.IsType() {
+					return true
+				}
+				if b, ok := info.TypeOf(call).Underlying().(*types.Basic); !ok || (b.Kind() != types.Uint8 && b.Kind() != types.Byte) {
+					return true
+				}
+				arg := ast.Unparen(call.Args[0])
+				if identObj(info, arg) == types.Object(ev) {
+					shifts[0] = true
+					stores++
+					return true
+				}
+				if be, ok := arg.(*ast.BinaryExpr); ok && be.Op == token.SHR && identObj(info, be.X) == types.Object(ev) {
+					if tv := info.Types[be.Y]; tv.Value != nil {
+						if k, ok := constant.Int64Val(constant.ToInt(tv.Value)); ok {
+							shifts[k] = true
+							stores++
+						}
+					}
+				}
+				return true
+			})
+			if stores == 0 {
+				return true
+			}
+			n++
+			var missing []int64
+			for k := int64(0); k < int64(width); k += 8 {
+				if !shifts[k] {
+					missing = append(missing, k)
+				}
+			}
+			c.Ob(rule, fr.ID()+"/"+ev.Name(), rs.Pos(), len(missing) == 0, true,
+				"element %s is %d bits wide; byte(%s >> k) is stored for k in %v; missing shifts %v (a dropped byte makes distinct elements share a key)", ev.Name(), width, ev.Name(), sortedInt64Keys(shifts), missing)
+			return true
+		})
+	}
+	if n == 0 {
+		c.Fail(rule, "sites", token.NoPos, "no integer-slice-to-bytes key builder found in bufprotosource (getPathKey moved or rewritten: undecided)")
+	}
+}
+
+func sortedInt64Keys(m map[int64]bool) []int64 {
+	var out []int64
+	for k := range m {
+		out = append(out, k)
+	}
+	sort.Slice(out, func(i, j int) bool { return out[i] < out[j] })
+	return out
 }
